@@ -612,6 +612,12 @@ func (h *hist) classifyAccepted(op MOp, reason string) {
 		if op.User != t.Creator {
 			h.run.Count("withdraw-by-non-creator-accepted", 1)
 		}
+		for d := range op.Coins {
+			if m.MinDeposit[d] == 0 {
+				h.run.Count("withdraw-of-a-denom-no-longer-accepted", 1)
+				break
+			}
+		}
 	case "activate":
 		if reason != "ok" {
 			return
@@ -1226,6 +1232,15 @@ func (h *hist) genOp() MOp {
 		return MOp{Kind: "deactivate", User: creatorOr(m.T(id), 3, 4), Tunnel: id}
 	case 5:
 		id := h.pickTunnel()
+		var act []uint64
+		for _, t := range m.Tunnels {
+			if t.Active {
+				act = append(act, t.ID)
+			}
+		}
+		if len(act) > 0 && r.Chance(3, 4) {
+			id = sim.Pick(r, act)
+		}
 		return MOp{Kind: "trigger", User: creatorOr(m.T(id), 4, 5), Tunnel: id}
 	case 6:
 		id := uint64(1 + r.Intn(nT))
@@ -1604,7 +1619,7 @@ func main() {
 		runCase(run, c.Case)
 		run.Finish()
 	}
-	n := run.N(400, 9000)
+	n := run.N(400, 12000)
 	sim.Parallel(n, 16, func(i int) { runCase(run, i) })
 	for _, c := range []string{
 		"op:create:ok:accepted", "op:create:ok-no-deposit:accepted", "op:create:beyond-balance:rejected", "op:create:denom-not-accepted:rejected",
@@ -1617,7 +1632,8 @@ func main() {
 		"op:activate:ok:accepted", "op:activate:not-creator:rejected", "op:activate:below-min-deposit:rejected",
 		"boundary:activate-at-exactly-min-accepted", "boundary:activate-one-below-min-rejected", "boundary:activate-multi-denom-one-denom-short-rejected",
 		"boundary:activate-by-non-creator-with-enough-deposit-rejected", "activate-multi-denom-min-accepted", "activate-thanks-to-deposits-of-non-creators",
-		"op:deactivate:ok:accepted", "op:trigger:inactive:rejected",
+		"op:deactivate:ok:accepted", "op:trigger:inactive:rejected", "op:trigger:live-route:accepted", "packet-produced:trigger",
+		"withdraw-of-a-denom-no-longer-accepted", "boundary:deposit-entire-balance-of-a-denom-accepted", "rejected-tx-byte-identical-state:trigger",
 		"op:params:ok:accepted", "min-deposit-raised-above-an-active-tunnels-total",
 		"end-block:active-tunnel-deactivated-fee-payer-empty", "end-block:active-tunnel-packet-attempt-failed", "end-block:active-tunnel-packet-produced",
 		"end-block:inactive-tunnel-left-alone", "walk:module-balance-compared-with-nonzero-fees",
